@@ -1,6 +1,8 @@
 //! Correspondence harness: generates cases, runs the real implementation in-process and writes
 //! one line per case: `op<TAB>args…<TAB>=><TAB>answer`.
 mod common;
+mod c15;
+mod c14;
 mod c17;
 mod c16;
 mod c06;
@@ -72,6 +74,8 @@ fn main() {
             "C06" => c06::generate(&mut ctx),
             "C16" => c16::generate(&mut ctx),
             "C17" => c17::generate(&mut ctx),
+            "C14" => c14::generate(&mut ctx),
+            "C15" => c15::generate(&mut ctx),
             _ => {
                 eprintln!("unknown property {prop}");
                 std::process::exit(2);
@@ -91,5 +95,5 @@ fn dispatch_replay(ctx: &mut Ctx, f: &[&str]) -> bool {
     if f.is_empty() {
         return false;
     }
-    c19::replay(ctx, f) || c09::replay(ctx, f) || c02::replay(ctx, f) || c13::replay(ctx, f) || c04::replay(ctx, f) || c05::replay(ctx, f) || c10::replay(ctx, f) || c01::replay(ctx, f) || pm::replay(ctx, f) || c12::replay(ctx, f) || c11::replay(ctx, f) || c08::replay(ctx, f) || c18::replay(ctx, f) || c20::replay(ctx, f) || c07::replay(ctx, f) || c06::replay(ctx, f) || c16::replay(ctx, f) || c17::replay(ctx, f)
+    c19::replay(ctx, f) || c09::replay(ctx, f) || c02::replay(ctx, f) || c13::replay(ctx, f) || c04::replay(ctx, f) || c05::replay(ctx, f) || c10::replay(ctx, f) || c01::replay(ctx, f) || pm::replay(ctx, f) || c12::replay(ctx, f) || c11::replay(ctx, f) || c08::replay(ctx, f) || c18::replay(ctx, f) || c20::replay(ctx, f) || c07::replay(ctx, f) || c06::replay(ctx, f) || c16::replay(ctx, f) || c17::replay(ctx, f) || c14::replay(ctx, f) || c15::replay(ctx, f)
 }
